@@ -41,6 +41,8 @@ impl Tier {
 /// A failed oracle. `sig` is the structural signature of the failure; when it is listed in
 /// /verif/known_findings.json for this property, the failure is counted as a known finding
 /// instead of a violation.
+pub const UNOBSERVABLE: &str = "__unobservable__";
+
 #[derive(Clone, Debug)]
 pub struct Fail {
     pub msg: String,
@@ -53,6 +55,18 @@ impl Fail {
             msg: msg.into(),
             sig: None,
         }
+    }
+    /// The harness could not make the observation the oracle needs (e.g. a response no longer
+    /// carries the attribute a figure is read from). Not a verdict about the property: the run ends
+    /// INCONCLUSIVE (exit 2), never with a violation.
+    pub fn unobservable(msg: impl Into<String>) -> Self {
+        Fail {
+            msg: msg.into(),
+            sig: Some(UNOBSERVABLE.to_string()),
+        }
+    }
+    pub fn is_unobservable(&self) -> bool {
+        self.sig.as_deref() == Some(UNOBSERVABLE)
     }
     pub fn sig(sig: impl Into<String>, msg: impl Into<String>) -> Self {
         Fail {
@@ -340,7 +354,11 @@ pub fn run_check<C: Check>(c: &C, env: &RunEnv) -> SubOutcome {
                 Err(p) => Err(Fail::new(format!("panic in check: {}", panic_msg(&p)))),
             };
             if let Err(f) = r {
-                if let Some(k) = is_known(env, &f) {
+                if f.is_unobservable() {
+                    *infra.lock().unwrap() = Some(format!("harness cannot observe: {}", f.msg));
+                    stop.store(true, Ordering::SeqCst);
+                    break;
+                } else if let Some(k) = is_known(env, &f) {
                     let mut kh = stats.known_hits.lock().unwrap();
                     let e = kh.entry(k.signature.clone()).or_insert((0, k.what.clone()));
                     e.0 += 1;
@@ -399,7 +417,11 @@ pub fn run_check<C: Check>(c: &C, env: &RunEnv) -> SubOutcome {
                         match c.test(&case, &rec) {
                             Ok(()) => Ok(()),
                             Err(f) => {
-                                if let Some(k) = is_known(env, &f) {
+                                if f.is_unobservable() {
+                                    *infra.lock().unwrap() = Some(format!("harness cannot observe: {}", f.msg));
+                                    stop.store(true, Ordering::SeqCst);
+                                    Ok(())
+                                } else if let Some(k) = is_known(env, &f) {
                                     if !frozen.get() {
                                         let mut kh = stats.known_hits.lock().unwrap();
                                         let e = kh
@@ -503,7 +525,9 @@ pub fn replay_check<C: Check>(c: &C, env: &RunEnv, case_json: &Value) -> Result<
     match r {
         Ok(()) => Ok(Ok(())),
         Err(f) => {
-            if let Some(k) = is_known(env, &f) {
+            if f.is_unobservable() {
+                Err(format!("harness cannot observe: {}", f.msg))
+            } else if let Some(k) = is_known(env, &f) {
                 println!(
                     "KNOWN-FINDING: property={} {} [{}]",
                     env.property, k.what, k.signature
@@ -566,7 +590,9 @@ pub fn fuzz_exec<C: Check>(c: &C, env: &RunEnv, stats: &Stats, data: &[u8]) -> O
         match r {
             Ok(()) => None,
             Err(f) => {
-                if let Some(k) = is_known(env, &f) {
+                if f.is_unobservable() {
+                    None
+                } else if let Some(k) = is_known(env, &f) {
                     if !frozen.get() {
                         let mut kh = stats.known_hits.lock().unwrap();
                         kh.entry(k.signature.clone()).or_insert((0, k.what.clone())).0 += 1;
